@@ -604,7 +604,11 @@ impl<'a> Compiler<'a> {
                 // if false jump over the body block
                 self.encode_if_then(Instruction::GotoIfFalse, |c| {
                     // if true execute body and jump to block_begin
+                    // variables declared in the body live for one iteration (as in Repeat and
+                    // ForEach): a body that never runs must not leave them numbered
+                    c.scope_begin();
                     c.process_card(body)?;
+                    c.scope_end();
                     c.push_instruction(Instruction::Goto);
                     write_to_vec(block_begin, &mut c.program.bytecode);
                     Ok(())
